@@ -43,6 +43,13 @@ PROPS = {
         "assumptions": [],
         "partial": ["'altered message => reject' beyond construct_only_if is the hash / strong-RSA argument (cited)"],
     },
+    "C07": {
+        "suite": "C07", "ref_sample": 20,
+        "trusted": CORE_TRUSTED + ["randomness is an abstract supply handing out each index once; that crypto/rand and the AES-CTR generator do so is C20.cprng_disjoint + the operating system (not modelled)",
+                                   "Go channel send/receive in a select are atomic steps (Go memory model)"],
+        "assumptions": ["values drawn at different supply indices are different (injective rnd in extractor_fails): holds except with negligible probability for >= 80-bit randomizers"],
+        "partial": ["schedules: the theorem covers every interleaving of the model's atomic channel steps; the real scheduler is exercised by stress runs (2..32 goroutines) through the pairwise oracles, the schedule itself is not observable"],
+    },
     "C08": {
         "suite": "C08",
         "ref_sample": 4,
